@@ -69,3 +69,17 @@ Example ignored_nonvacuous :
   pluginCall (Db None false [] [ANTIOWNER] [] true) (ex_dsp true) [EvBody] = Ok [] /\
   pluginCall (Db None false [] [ANTIOWNER] [] true) (ex_dsp false) [EvBody] = Ok [EvBody].
 Proof. vm_compute. auto. Qed.
+
+(* a command replayed later by the scheduler: ignored at the time it fires => neither effect nor reply *)
+Theorem scheduled_ignored_silent i inner :
+  checkIgnored i = Ok true -> scheduled_fire true i inner = Ok [].
+Proof. intro H. unfold scheduled_fire. rewrite H. reflexivity. Qed.
+
+Theorem scheduled_not_ignored_runs i inner :
+  checkIgnored i = Ok false -> scheduled_fire true i inner = Ok inner.
+Proof. intro H. unfold scheduled_fire. rewrite H. reflexivity. Qed.
+
+Example scheduled_nonvacuous :
+  scheduled_fire true (Ign None false true false false) [EvBody] = Ok [] /\
+  scheduled_fire true (Ign (Some (User [OWNER] false false)) false true false false) [EvBody] = Ok [EvBody].
+Proof. vm_compute. auto. Qed.
